@@ -10,7 +10,7 @@ src = sys.argv[3] if len(sys.argv) > 3 else "/tmp/mut/%s/_mutant/%s" % (prop, mu
 dst = "/verif/seeded/%s/%s" % (prop, mut)
 os.makedirs(dst, exist_ok=True)
 for f in os.listdir(src):
-    if os.path.isfile(os.path.join(src, f)) and not (f.startswith('suite') and f.endswith('.log')):
+    if os.path.isfile(os.path.join(src, f)) and not (f.startswith('suite') and f.endswith('.log')) and os.path.abspath(src) != os.path.abspath(dst):
         shutil.copy(os.path.join(src, f), os.path.join(dst, f))
 meta = json.load(open(os.path.join(dst, "meta.json")))
 env = dict(os.environ, GOFLAGS="-mod=mod", GOPROXY="off", GOSUMDB="off", GOTOOLCHAIN="local")
